@@ -203,7 +203,24 @@ func runCheck(repo, verif, id, tier string, writeLedger bool) int {
 		reps = append(reps, rep)
 		all = append(all, obls...)
 	}
-	lrep, lobls := e.VerifyLemmas(id, pc.Lemmas)
+	// lemmas named in `uses` clauses of the functions under contract are proved in the same run
+	lemmaNames := append([]string{}, pc.Lemmas...)
+	for _, f := range pc.Functions {
+		if c := e.cs.Funcs[modPath+"/"+f]; c != nil {
+			for _, u := range c.Uses {
+				dup := false
+				for _, x := range lemmaNames {
+					if x == u {
+						dup = true
+					}
+				}
+				if !dup {
+					lemmaNames = append(lemmaNames, u)
+				}
+			}
+		}
+	}
+	lrep, lobls := e.VerifyLemmas(id, lemmaNames)
 	if lrep != nil {
 		reps = append(reps, lrep)
 		all = append(all, lobls...)
